@@ -145,7 +145,8 @@ def all_flows(case, g=None, max_flows=None, tilings=True):
             for order in itertools.permutations(idx2):
                 if order.index(x + ".1") > order.index(x + ".0"):
                     continue
-                flows.append({"order": list(order), "style": "and", "tile": {"rank": x, "step": step}})
+                flows.append({"order": list(order), "style": "and",
+                              "tile": dict({"rank": x, "step": step}, **({"by_rankid": True} if g.random() < 0.4 else {}))})
         # dynamic partitioning: boundaries from a list / from another fiber's coordinates
         S = case["shapes"][x]
         for _ in range(2):
@@ -177,6 +178,8 @@ def tiled(case, tensors, flow):
                     sp = Fiber(sp, [1] * len(sp))
                     sp.getRankAttrs().setId(x)
                 t2[nm] = tensors[nm].splitNonUniform(sp, depth=idx.index(x))
+            elif tile.get("by_rankid"):
+                t2[nm] = tensors[nm].splitUniform(step, rankid=x)          # the rank named, not its depth given
             else:
                 t2[nm] = tensors[nm].splitUniform(step, depth=idx.index(x))
             nidx = tuple(j for i in idx for j in ((x + ".1", x + ".0") if i == x else (i,)))
